@@ -31,7 +31,7 @@ with is_reg_flags:
     NPV = slc(PSW, 18, 1, "npv")  # non-protected value (0: trusted, 1: not trusted)
 
 with is_reg_pc:
-    pc = reg("pc", 16)
+    pc = reg("pc", 32)
 
 with is_reg_stack:
     sp = reg("sp", 32)  # stack ptr
